@@ -407,6 +407,7 @@ package schema
 //@   ensures result != nil && sameKind(result, self) && rb_len(result) == entries
 //@ func (RangeBoundarySlicer).Parse
 //@   params start base bitSize
+//@   ensures implies(result1 == nil && isDrb(self) && lexdec(start), !smt("Bool", "(fp.isNaN (ub$F64 (i_box %s)))", result0))
 //@ func (RangeBoundarySlicer).Append
 //@   params start end
 //@   ensures result != nil && sameKind(result, self) && rb_len(result) == rb_len(self) + 1 && rb_start(result, rb_len(self)) == start && rb_end(result, rb_len(self)) == end
